@@ -64,6 +64,25 @@ def run(rep, pdb, tier):
         want = {"main": (canon_atom(norm_cmp("==", i, j)), {i, j}),
                 "sub": (canon_atom(norm_cmp("==", i, lin_add(j, num(1)))), {j, lin_add(i, num(-1))}),
                 "sup": (canon_atom(norm_cmp("==", lin_add(i, num(1)), j)), {i, lin_add(j, num(-1))})}
+        if set(got) != set(want):
+            # the same map written as one `if / else if / else { panic }` expression (or any mix): classify every way the function
+            # returns a value by the equality known there
+            from .common import return_paths
+            got2, others, n_div = {}, 0, 0
+            for fs_, val_, node_ in return_paths(ctx):
+                if diverges(node_):
+                    n_div += 1
+                    continue
+                d = diag_of(val_)
+                cf = {canon_atom(f_) for f_ in fs_ if f_[0] == "cmp"}
+                hit = [k for k in want if want[k][0] in cf]
+                if d is not None and d[0] in hit:
+                    got2[d[0]] = (want[d[0]][0], d[1])
+                else:
+                    others += 1
+            if set(got2) == set(want) and not others:
+                got = got2
+                tail_div = tail_div or n_div >= 1
         ok = g_ok and bool(tail_div) and set(got) == set(want) and all(got[d][0] == want[d][0] and got[d][1] in want[d][1] for d in want)
         rep.add(key, rule, ok, fn["body"], "guards=%s branches=%s falls through to panic=%s" % (g_ok, sorted(got), bool(tail_div)), where=loc(fn["body"]))
         maps.append({d: (got[d][0]) for d in got})
